@@ -649,9 +649,19 @@ func c4Watch(victim, cheater *c4Side, w *chainWatcher, got *[]*lnwallet.BreachRe
 	// something else may wait for subscribers that do not exist here
 	done := make(chan error, 1)
 	go func() {
-		done <- w.handleCommitSpend(&chainntnfs.SpendDetail{
+		spend := &chainntnfs.SpendDetail{
 			SpenderTxHash: &txid, SpendingTx: breachTx, SpendingHeight: 100,
-		})
+		}
+		// the production (multi-confirmation) path: the spend is first
+		// detected - the watcher records the close height through ITS
+		// handle -, on odd heights reorged out and detected again, and
+		// handled once it is deep enough
+		w.processDetectedSpend(spend, "verif", nil, nil)
+		if h%2 == 1 {
+			_ = w.cfg.chanState.ResetCloseConfirmationHeight()
+			w.processDetectedSpend(spend, "verif", nil, nil)
+		}
+		done <- w.handleCommitSpend(spend)
 	}()
 	select {
 	case err := <-done:
@@ -957,7 +967,7 @@ func TestVerifC04Justice(t *testing.T) {
 					return nil
 				},
 				extractStateNumHint: lnwallet.GetStateNumHint,
-				chanCloseConfs:      fn.Some(uint32(1)),
+				chanCloseConfs:      fn.Some(uint32(3)),
 			})
 			if err != nil {
 				t.Fatalf("newChainWatcher: %v", err)
